@@ -211,6 +211,8 @@ func c17Units(tier string) []Unit {
 			{[]string{"a", "a!"}, []uint64{1, 2, 10}, 4, []int{1, 2, 3}},
 			// a user key that contains the version separator and has another user key as its prefix before it
 			{[]string{"a", "a@1"}, []uint64{1, 10}, 3, []int{1, 2}},
+			// versions on both sides of 2^63 and the largest one (the "newest version" probe uses it)
+			{[]string{"k", "m"}, []uint64{7, 1<<63 - 1, 1 << 63, 1<<64 - 1}, 3, []int{2}},
 		}
 	} else {
 		cfgs = []cfg{
